@@ -579,6 +579,7 @@ pub fn run(e: &'static Engine) {
          the environment does not provide (probed first) are skipped and labelled, never asserted. Non-trivial: a fault was injected; \
          distinct by (writer, class, L bucket of 5%, QR).",
     );
+    e.extend_rule("the process works inside its scratch directory (logo.png, imgs/mark.png, out/ with different files of the same names): destinations absolute / relative / in the sub-directory, file-name extensions independent of the writer, PNG cases that really load an image (relative file, data URI, missing file); the writing renderer goes through the warm-up while the expected bytes come from a fresh one; existing-file classes (same length different head / tail, document plus extra bytes), symlink classes; the case is JSON-round-tripped before use.");
     e.assume("the harness runs as root, for which file permissions do not apply: read-only locations are exercised through /proc, /sys, /dev/full, and through a child process that drops to uid/gid 65534 before writing into a 0555 directory / over a 0444 file (skipped and labelled if setuid is unavailable)");
     e.assume("RLIMIT_FSIZE with SIGXFSZ ignored makes the kernel return a partial write followed by EFBIG at exactly L");
     crate::engine::run_regress(e, &|c, o| replay(e, c, o));
